@@ -213,6 +213,12 @@ bool Instance::setup_environment(unsigned int flags) {
     env->execdata = execdata;
     env->tce = tce;
 
+    // SIGPUSHONLY: the scriptSig of the debugged input may only push
+    if ((flags & SCRIPT_VERIFY_SIGPUSHONLY) && tx && txin && txin_index >= 0 && (size_t)txin_index < tx->vin.size() && !tx->vin[txin_index].scriptSig.IsPushOnly()) {
+        error = SCRIPT_ERR_SIG_PUSHONLY;
+        return false;
+    }
+
     return env->operational;
 }
 
